@@ -140,7 +140,9 @@ func (a sortableNodeArray) compare(lhs *CandidateNode, rhs *CandidateNode, dateT
 		isDateTime = errLhs == nil && errRhs == nil
 	}
 
-	if lhsTag == "!!null" && rhsTag != "!!null" {
+	if lhsTag == "!!null" && rhsTag == "!!null" {
+		return 0
+	} else if lhsTag == "!!null" && rhsTag != "!!null" {
 		return -1
 	} else if lhsTag != "!!null" && rhsTag == "!!null" {
 		return 1
